@@ -133,11 +133,24 @@ class Setup:
                   lambda: f.target_event_rates(CSEPCatalog(data=[inside, ("low",) + inside[1:5] + (low,)], region=region), scale=True),
                   lambda: CSEPCatalog(data=[inside, outside], region=region).spatial_magnitude_counts(),
                   lambda: CSEPCatalog(data=[outside, inside], region=region).spatial_counts(),
-                  lambda: CSEPCatalog(data=[outside, inside], region=region).spatial_event_probability()):
+                  lambda: CSEPCatalog(data=[outside, inside], region=region).spatial_event_probability()) + self.early_exits(f, region):
             try:
                 g()
             except Exception:  # noqa: BLE001
                 pass
+
+    @staticmethod
+    def early_exits(f, region):
+        """evaluations of the forecast against an EMPTY observation (early-exit paths: nothing to place, nothing to normalise by)"""
+        from csep.core.catalogs import CSEPCatalog
+        from csep.core import poisson_evaluations as P, binomial_evaluations as B
+        empty = CSEPCatalog(data=[], region=region, name="empty")
+        return (lambda: P.number_test(f, empty),
+                lambda: P.conditional_likelihood_test(f, empty, num_simulations=1, seed=3),
+                lambda: P.spatial_test(f, empty, num_simulations=1, seed=3),
+                lambda: P.magnitude_test(f, empty, num_simulations=1, seed=3),
+                lambda: B.binary_spatial_test(f, empty, num_simulations=1, seed=3),
+                lambda: f.target_event_rates(empty, scale=True))
 
     @staticmethod
     def touch_forecast(f):
